@@ -62,6 +62,9 @@ class Env:
     def run_xcube(self, prop, case, explicit=True, dtype=None, note=None):
         rnd = self.rnd
         dtype = dtype or rnd.choice([np.int64, np.int64, np.uint8, np.int32, np.uint16])
+        # the dimension arrays handed to the array cube must hold the data: never narrow below the largest category id
+        if any(d.size and (int(d.max()) > np.iinfo(dtype).max or int(d.min()) < np.iinfo(dtype).min) for d in case.dims):
+            dtype = np.int64
         arrs = [d.astype(dtype) for d in case.dims]
         exc = res = None
         held = []
